@@ -11,3 +11,6 @@ RULES = {"C18.a", "C18.b", "C18.c", "C18.d"}
 
 def check(ctx):
     dot_rules.analyze(ctx, RULES)
+    # the property is observed on scanners obtained through build(): the cache must hand back the configuration's own compilation
+    from .common import cache_foundation
+    cache_foundation(ctx)
